@@ -16,9 +16,9 @@ def run(pid, tier, replay=None):
         "requests are integers: all limits / distances / boundary velocities from small sets, both directions; trapezoid start velocity also against the direction of travel",
         "requests for which the generator reports duration 0 carry no claim",
     ]
-    consts = ["CONSTANTS VM = %s" % ("{1, 2, 3}" if q else "{1, 2, 3, 5}"), " AC = %s" % ("{1, 2}" if q else "{1, 2, 4}"), " DE = %s" % ("{1, 3}" if q else "{1, 2, 3}"),
-              " DIST = %s" % ("{1, 2, 5, 9}" if q else "{1, 2, 3, 5, 9, 20}"), " VB = %s" % ("{0, 1, 2}" if q else "{0, 1, 2, 3}"),
-              " JM = %s" % ("{1, 3}" if q else "{1, 2, 3, 8}"), " AM = %s" % ("{1, 2}" if q else "{1, 2, 3}")]
+    consts = ["CONSTANTS VM = %s" % ("{1, 2, 3}" if q else "{1, 2, 3, 5, 8, 13}"), " AC = %s" % ("{1, 2}" if q else "{1, 2, 4, 7}"), " DE = %s" % ("{1, 3}" if q else "{1, 2, 3, 5}"),
+              " DIST = %s" % ("{1, 2, 5, 9}" if q else "{1, 2, 3, 4, 5, 7, 9, 20, 50, 100}"), " VB = %s" % ("{0, 1, 2}" if q else "{0, 1, 2, 3, 5}"),
+              " JM = %s" % ("{1, 3}" if q else "{1, 2, 3, 8}"), " AM = %s" % ("{1, 2}" if q else "{1, 2, 3, 5}")]
     cfg = vlib.write_cfg(sc.path("traj.cfg"), consts + ["INIT Init", "NEXT Next", "ACTION_CONSTRAINT Emit", "CHECK_DEADLOCK FALSE"])
     out = sc.path("traj.out")
     res = tlc(os.path.join(SPECDIR, "TrajMC.tla"), cfg, sc, timeout=1800, heap="8g", capture_prefix="10[12]0[12]0[12]", stdout_path=out, workers=8)
